@@ -22,7 +22,7 @@ ASSUMPTIONS = ["a flush is issued only at a point that is not inside an escape s
                "the console is wider than the longest generated line, so word-wrap cannot split a line",
                "carriage returns and the control characters Text strips are kept out of the streams",
                "a newline added by flush after the pending partial line is accepted"]
-REQUIRED = ["mon.live_redirect_sessions", "mon.live_redirect_chars", "mon.roundtrip_chars", "mon.proxy_chars", "mon.proxy_histories", "mon.flush_with_pending"]
+REQUIRED = ["mon.live_redirect_sessions", "mon.live_redirect_chars", "mon.roundtrip_chars", "mon.proxy_chars", "mon.proxy_histories", "mon.flush_with_pending", "mon.proxy_narrow_console"]
 MIN_NONTRIVIAL = {"quick": 4000, "thorough": 200000}
 
 
